@@ -52,11 +52,20 @@ STRUCTS = {
         "A_VP_D": ["D0", None, None, [casc("a(1)(1260)+", R("rho(770)0", "pi+", "pi-"), "pi+", "D"), leaf("pi-")]],
         "A_SP": ["D0", None, None, [casc("a(1)(1260)-", R("PiPi00", "pi+", "pi-"), "pi-"), leaf("pi+")]],
     },
+    3: {  # eta pi0 pi0 pi0  (three identical particles: six permutations)
+        "SS": ["D0", None, None, [R("a(0)(980)0", "eta", "pi0"), R("f(0)(980)0", "pi0", "pi0")]],
+        "A_SP": ["D0", None, None, [casc("a(1)(1260)0", R("f(0)(980)0", "pi0", "pi0"), "pi0"), leaf("eta")]],
+    },
+    4: {  # pi0 pi0 pi0 pi0  (four identical particles: 24 permutations)
+        "SS": ["D0", None, None, [R("f(0)(980)0", "pi0", "pi0"), R("f(0)(500)", "pi0", "pi0")]],
+    },
 }
 EVENT_ORDERS = {
     0: [["K-", "pi+", "pi+", "pi-"], ["pi+", "K-", "pi-", "pi+"], ["pi-", "pi+", "pi+", "K-"]],
     1: [["K+", "K-", "pi+", "pi-"], ["pi-", "K-", "pi+", "K+"]],
     2: [["pi+", "pi-", "pi+", "pi-"], ["pi+", "pi+", "pi-", "pi-"], ["pi-", "pi+", "pi+", "pi-"]],
+    3: [["eta", "pi0", "pi0", "pi0"], ["pi0", "eta", "pi0", "pi0"], ["pi0", "pi0", "pi0", "eta"]],
+    4: [["pi0", "pi0", "pi0", "pi0"]],
 }
 
 
